@@ -10,6 +10,11 @@ use serde_json::{json, Map, Value};
 
 pub const VERIF_DIR: &str = "/verif";
 
+/// Output directory for evidence/replays (overridable for mutation self-tests)
+pub fn out_dir() -> PathBuf {
+    PathBuf::from(std::env::var("VERIF_OUT").unwrap_or_else(|_| VERIF_DIR.to_string()))
+}
+
 #[derive(Debug, Clone, Copy, PartialEq, Eq)]
 pub enum Tier {
     Quick,
@@ -157,7 +162,7 @@ impl Report {
         }
         let mut replay_paths = vec![];
         for (i, v) in new_violations.iter().enumerate() {
-            let dir = PathBuf::from(VERIF_DIR).join("replays");
+            let dir = out_dir().join("replays");
             let _ = std::fs::create_dir_all(&dir);
             let path = dir.join(format!("{}-{}-{}.json", self.id, self.tier.name(), i));
             let body = json!({
@@ -200,7 +205,7 @@ impl Report {
             "wall_s": wall,
             "violations": new_violations.len(),
         });
-        let dir = PathBuf::from(VERIF_DIR).join("evidence");
+        let dir = out_dir().join("evidence");
         let _ = std::fs::create_dir_all(&dir);
         let path = dir.join(format!("{}.json", self.id));
         if let Err(e) = std::fs::write(&path, serde_json::to_string_pretty(&ev).unwrap()) {
